@@ -3,6 +3,7 @@
 import json, os
 V = os.path.dirname(os.path.dirname(os.path.abspath(__file__)))
 props = [json.loads(l) for l in open(os.path.join(V, 'properties.jsonl'))]
+SH = 'Lean 4 theorems over a hand-written model of the pure functions of yalafi/shell; correspondence (differential) of model and /repo on every run; '
 T2T = 'Lean 4 theorems over a hand-written model of the whole filter + translated tables; token-level correspondence (differential) of model and /repo on every run; '
 CLAIMED = {
  'C01': ('4 C01', 'Lean theorem C01_tex2txt(_current): for the whole filter model (scanner, macro expander with all handlers and bundled packages, maths parser, blank-line removal, detached flows, phrase replacement, multi-language splitter), every source, option record, file system and fuel: equal lengths and 1<=p<=len(source) (induction on fuel over the mutual block; ghost hypothesis foreign=false reported per run). Table facts decided by the kernel on the tables translated from /repo (Generated/WF.lean). The model is tied to the code by token-level correspondence on G-doc/G-edge/G-mut/G-soup inputs; the same inputs are judged by the direct oracle incl. CLI --nums.',
@@ -31,6 +32,18 @@ CLAIMED = {
          T2T + 'language-assignment oracle'),
  'C13': ('4 C13', 'Lean theorems for all texts, position lists (also non-monotonic), rule lists: substitute equals the per-index specification (C13_substitute_spec), positions stay within the input positions, the matcher yields disjoint increasing spans, respects word boundaries and never crosses a paragraph break, comment/no-lhs lines are ignored. The hand-written matcher is tied to Python re by correspondence on every run.',
          'Lean 4 proof (refinement to a per-index specification) + correspondence of model and utils.replace_phrases/substitute + independent reference matcher'),
+ 'C14': ('4 C14', 'Lean theorems (model of the pure shell functions, all maps/offsets): for a copied word (contiguous map) map_match_position returns the word offset and length; assembling several parts shifts match offsets by exactly the text assembled before the part and keeps text and map the same length; sorting by LaTeX position is ordered and rejects offsets outside the map. Agreement of plain/json/xml/xml-b/html reports, order, and language per part are checked end to end with a fake proofreader on generated (multi-language) documents; model tied to utils.map_match_position and the assembly code by correspondence.',
+         SH + 'end-to-end subprocess runs with a fake proofreader'),
+ 'C15': ('4 C15', 'Lean theorems: typed JSON access never raises and returns the demanded type; with integer length and non-empty map map_match_position never raises for any offset/length and, if the map satisfies C01, the reported span lies inside the file; sorting validates offsets before use. All report generators are exercised with field deletions, type changes, value perturbations (incl. huge and negative numbers), truncations and non-JSON answers in all output modes (only exit codes 0/1 with a diagnostic are accepted).',
+         SH + 'malformed-answer enumeration through the real shell (subprocess)'),
+ 'C16': ('4 C16', 'Lean theorems (all strings): protect_html leaves no double quote, < and > occur exactly once per line break, escaping distributes over concatenation. Faithful line cells, line numbers, one highlight per match (in place or in the overlap list) with the mapped source span, and absence of foreign tags are checked on reports parsed with html.parser for generated files and match sets incl. overlapping, nested, multi-line, zero-length matches.',
+         SH + 'parsed HTML reports from the real shell'),
+ 'C17': ('4 C17', 'Lean: the filter model is a pure function of (tables, source, options, files) and every call starts from the same initial parser state (C17_initialState_fresh); C17_globals_accounted (kernel-decided on the AST scan of the working tree, regenerated every run) shows every module-level mutable object in yalafi/ is on the examined list. Implementation: call sequences in one interpreter vs. each call alone in a fresh interpreter, repeated calls, request sequences to one --as-server process vs. fresh servers; the correspondence runs hundreds of documents in one interpreter against the pure model.',
+         'Lean 4 (purity of the model + kernel-decided inventory of module-level state translated from /repo) + history experiments in one interpreter / one server process'),
+ 'C18': ('4 C18', 'Lean theorems (all inclusion relations, skip predicates, fuel): the --include work list has no duplicates and no skipped file, contains the given files, is closed under inclusion and contains only reachable files; .tex appended iff missing. Extraction output and the work list end to end are checked on generated documents and inclusion graphs (cycles, self-inclusion, duplicates, dots in names, sub-directories, --skip).',
+         SH + 'generated inclusion graphs through the real shell'),
+ 'C20': ('4 C20', 'Lean theorems (all texts; character classes translated from the interpreter): the single-letter scan reports exactly the isolated letters, each once, in increasing order; a letter is suppressed iff it lies inside a hit of the accept scan; the context excerpt marks the same characters as offset/length. Accept-pattern construction (overlapping hits) and the equation-punctuation pattern are checked against reference scans written from the wording.',
+         SH + 'reference scans'),
  'C19': ('4 C19', 'Lean theorems: the only writer of the unknowns list appends a name iff it is not in maths mode and not yet listed (no duplicates, order of first use, maths uses ignored). Completeness and exclusion of declared names are checked against the AST reference with --unkn.',
          T2T + 'reference unknowns list from the AST'),
 }
